@@ -4,8 +4,11 @@ from .c01 import domain_check
 
 PID = "C02"
 TIERS = {
-    "quick":    dict(mc="MC_SecStruct_7.cfg", maxn=9, knotted=300, rnd=300),
-    "thorough": dict(mc="MC_SecStruct_8.cfg", maxn=11, knotted=5000, rnd=4000),
+    "quick":    dict(mc="MC_SecStruct_7.cfg", maxn=9, knotted=300, rnd=300,
+                     stems=[dict(maxk=4, lens=(1, 3, 5), mincross=3, stars=(9, 10, 12))]),
+    "thorough": dict(mc="MC_SecStruct_8.cfg", maxn=11, knotted=5000, rnd=4000,
+                     stems=[dict(maxk=4, lens=(1, 2, 3, 5, 8), mincross=1, stars=(9, 10, 11, 12, 15)),
+                            dict(maxk=5, lens=(1, 3), mincross=3, stars=())]),
 }
 
 
@@ -25,7 +28,11 @@ def run(tier):
         kn = [c for c in ss.knotted_cases(t["knotted"], lib.seed()) if ss.max_component(c["pairs"])[0] <= 10]
         # large random structures: only the polynomial consequences are decided (the spec skips brute force itself)
         rnd = [c for c in ss.random_cases(t["rnd"], lib.seed() + 1, tag="p") if ss.max_component(c["pairs"])[0] <= 10]
-        cases = ex + kn + rnd
+        # stem-level family (TLC Gen_StemFamily): every arrangement of <= K stems x stem lengths, and stars
+        sf = []
+        for j, fam in enumerate(t["stems"]):
+            sf += ss.stem_family_cases(sc, fam["maxk"], fam["lens"], fam["mincross"], fam["stars"], tag=f"s{j}x")
+        cases = ex + kn + rnd + sf
         rec = lib.pmap(ss._rec_bp_c02, cases)
         domain_check([c for c in rec if c["id"].startswith("m")], t["maxn"], sc)
         res = lib.trace_validate("Trace_SecStruct", "Trace_SecStruct_C02.cfg", rec, sc)
@@ -35,7 +42,9 @@ def run(tier):
         cov["exhaustive"] = True
         cov["rule"] = (f"every matching on 1..n, n<={t['maxn']} ({len(ex)}; TLC Gen_SecStruct, domain re-checked) + "
                        f"{len(kn)} seeded random multi-stem knotted structures (n 12..60) + {len(rnd)} larger random ones "
-                       "with conflict components <= 10 stems. TLC brute-forces the optimum over all proper assignments "
+                       "with conflict components <= 10 stems + the stem-level family of Gen_StemFamily (" + str(len(sf)) + " structures: every "
+                       "chord diagram of <= K stems x every choice of stem lengths from a palette, strands separated by one "
+                       "unpaired nucleotide, and stars in which one stem is crossed by 10..16 others). TLC brute-forces the optimum over all proper assignments "
                        "[C -> 0..maxdeg(C)] per conflict component whenever the component has <= 7 stems and <= 100000 "
                        "candidates; otherwise only ProperLevels/NoLowerMove/NotWorseThanFcfs/PkFreeRoundOnly are decided. "
                        "Non-trivial = distinct structure with at least one pair of crossing stems (solver actually consulted).")
@@ -55,7 +64,7 @@ def replay(doc):
         return run("quick")
     rep = lib.Report(PID, "quick", "model_checking", evidence=False)
     with lib.Scratch("c02r") as sc:
-        base = {k: case[k] for k in ("id", "kind", "n", "pairs", "seq")}
+        base = {k: case[k] for k in ("id", "kind", "n", "pairs", "seq", "opt_limit") if k in case}
         rec = ss._rec_bp_c02(base)
         res = lib.trace_validate("Trace_SecStruct", "Trace_SecStruct_C02.cfg", [rec], sc, chunks=1)
         rep.add_trace(res, {rec["id"]: rec}, "C02")
